@@ -65,6 +65,12 @@ def jobs(tier, seed):
         js.append({'harness': 'sp', 'weight': 12,
                    'cfg': {'kind': 'SP', 'rate': 8, 'table': t, 'flows': [0, 1, 0, 1, 1][:n], 'sorts': 'int',
                            'burst': [0, 1, 0, 1, 0][:n]}})
+    # zero-length packets are legal packets: a queue holding only those is still backlogged
+    js.append({'harness': 'sp', 'weight': 15,
+               'cfg': {'kind': 'SP', 'rate': 8, 'table': {0: 1, 1: 2}, 'flows': [0, 1, 0, 1], 'sorts': 'int', 'smin': 0,
+                       'smax': 2, 'burst': [0, 1, 1, 1]}})
+    js.append({'harness': 'sp', 'weight': 15,
+               'cfg': {'kind': 'SP', 'rate': 8, 'table': {0: 1, 1: 2}, 'flows': [0, 1, 1], 'sorts': 'int', 'smin': 0, 'smax': 2}})
     # three priority levels
     for pat in ([0, 1, 2, 2], [2, 1, 0, 1]) if tier == 'quick' else ([0, 1, 2, 2, 1], [2, 1, 0, 1, 0], [1, 1, 2, 0, 2]):
         js.append({'harness': 'sp', 'weight': 15,
